@@ -875,7 +875,7 @@ def _safe_executable(tree, path):
     try:
         if tree.kind(path) != "file":
             return False
-    except _mod_transport.NoSuchFile:
+    except NoSuchFile:
         return None
     return tree.is_executable(path)
 
@@ -1124,7 +1124,11 @@ class Merge3Merger:
                 if this_entry is not None:
                     this_name = this_entry.name
                     this_parent = this_entry.parent_id
-                    this_executable = this_entry.executable
+                    # Not ``this_entry.executable``: for a working tree that
+                    # is the flag recorded at the last commit, which would
+                    # silently undo an uncommitted chmod whenever the file's
+                    # content is merged.
+                    this_executable = _safe_executable(self.this_tree, this_path)
                 else:
                     this_name = None
                     this_parent = None
